@@ -125,15 +125,20 @@ func c09LifecycleCase(t *rapid.T) {
 	quiesce := func() {
 		synctest.Wait()
 		w.failOnViolations(t, &trace)
+		// never fail while holding a lock: collect under the lock, report afterwards
+		var leaked []string
 		w.mu.Lock()
-		defer w.mu.Unlock()
 		for f, why := range retired {
 			if f.inside == 0 && f.closeCalls == 0 {
 				// a handle that began on it keeps it alive only through inFlight, which
 				// the fake mirrors as "inside"
-				w.mu.Unlock()
-				fail("forwarder #%d (%s %s) was retired (%s) and has nothing in flight, but it was not closed", f.id, f.proto, f.upstream, why)
+				leaked = append(leaked, fmt.Sprintf("forwarder #%d (%s %s) was retired (%s) and has nothing in flight, but it was not closed", f.id, f.proto, f.upstream, why))
 			}
+		}
+		w.mu.Unlock()
+		if len(leaked) > 0 {
+			sort.Strings(leaked)
+			fail("%s", strings.Join(leaked, "; "))
 		}
 	}
 	dropIdleHandles := func(why string) {
@@ -367,18 +372,21 @@ func c09LifecycleCase(t *rapid.T) {
 			fail("op%d never returned", op.idx)
 		}
 	}
+	var notOnce []string
 	w.mu.Lock()
 	nf := len(w.fwds)
 	for _, f := range w.fwds {
 		if f.closeCalls != 1 {
-			w.mu.Unlock()
-			fail("forwarder #%d (%s %s, %d ops) was closed %d times by the end (want exactly once)", f.id, f.proto, f.upstream, f.callsStarted, f.closeCalls)
+			notOnce = append(notOnce, fmt.Sprintf("forwarder #%d (%s %s, %d ops) was closed %d times by the end (want exactly once)", f.id, f.proto, f.upstream, f.callsStarted, f.closeCalls))
 		}
 		if f.callsStarted == 0 {
 			sawLoser = true
 		}
 	}
 	w.mu.Unlock()
+	if len(notOnce) > 0 {
+		fail("%s", strings.Join(notOnce, "; "))
+	}
 	if sawRetireInFlight {
 		classes["retire-with-inflight"] = true
 	}
